@@ -179,6 +179,9 @@ func main() {
 	if *prop == "" {
 		fatal("usage: simcheck -p <property> [-tier quick|thorough] | --replay <file>")
 	}
+	if *prop == "C20" {
+		os.Exit(checkProc(*prop, *tier, seedFromEnv(), *runsOv, *keep))
+	}
 	wn, ok := propWorld[*prop]
 	if !ok {
 		fatal("property %s has no check (not applicable or unknown)", *prop)
@@ -192,6 +195,18 @@ func main() {
 		seed = v
 	}
 	os.Exit(check(*prop, worlds[wn], *tier, seed, *runsOv, *workers, *keep))
+}
+
+func seedFromEnv() uint64 {
+	seed := uint64(1)
+	if s := os.Getenv("VERIF_SEED"); s != "" {
+		v, err := strconv.ParseUint(s, 10, 64)
+		if err != nil {
+			fatal("VERIF_SEED=%q: %v", s, err)
+		}
+		seed = v
+	}
+	return seed
 }
 
 func isFlagSet(name string) bool {
@@ -621,6 +636,16 @@ func doReplay(path string) int {
 	if err := json.Unmarshal(b, &rf); err != nil {
 		fatal("%v", err)
 	}
+	if rf.World == "procworld" {
+		scratch, bin := buildProc()
+		defer os.RemoveAll(scratch)
+		out, code := runTool(bin, "-replay", path)
+		fmt.Print(out)
+		if code == 1 {
+			fmt.Printf("VIOLATION property=%s replay=%s\n", rf.Property, path)
+		}
+		return code
+	}
 	ws, ok := worlds[rf.World]
 	if !ok {
 		fatal("replay file names unknown world %q", rf.World)
@@ -633,4 +658,155 @@ func doReplay(path string) int {
 		fmt.Printf("VIOLATION property=%s replay=%s\n", rf.Property, path)
 	}
 	return code
+}
+
+// ---- procworld (C20): real processes under forced schedules ----
+
+func buildProc() (scratch, bin string) {
+	scratch, err := os.MkdirTemp("", "simcheck-procworld-")
+	if err != nil {
+		fatal("%v", err)
+	}
+	if err := rewrite.Prepare(repoDir, scratch, filepath.Join(verifDir, "simgo"), nil); err != nil {
+		os.RemoveAll(scratch)
+		fatal("copying /repo failed: %v", err)
+	}
+	mod, _ := os.ReadFile(filepath.Join(verifDir, "worlds", "go.mod"))
+	modFile := filepath.Join(scratch, "worlds.mod")
+	os.WriteFile(modFile, []byte(string(mod)+"\nreplace github.com/whoisnian/glb => "+filepath.Join(scratch, "glb")+"\nreplace glborig => "+filepath.Join(scratch, "glborig")+"\n"), 0644)
+	sum, _ := os.ReadFile(filepath.Join(repoDir, "go.sum"))
+	os.WriteFile(filepath.Join(scratch, "worlds.sum"), sum, 0644)
+	bin = filepath.Join(scratch, "procworld")
+	cmd := exec.Command("go", "build", "-tags", "verif", "-modfile="+modFile, "-o", bin, "./procworld")
+	cmd.Dir = filepath.Join(verifDir, "worlds")
+	cmd.Env = goEnv()
+	if out, err := cmd.CombinedOutput(); err != nil {
+		os.RemoveAll(scratch)
+		fatal("building procworld with -tags verif failed (infrastructure, not a verdict):\n%s", out)
+	}
+	return scratch, bin
+}
+
+func checkProc(prop, tier string, seed uint64, runsOverride int, keep bool) int {
+	start := time.Now()
+	scratch, bin := buildProc()
+	if !keep {
+		defer os.RemoveAll(scratch)
+	}
+	n := 40
+	if tier == "thorough" {
+		n = 1500
+	}
+	if runsOverride > 0 {
+		n = runsOverride
+	}
+	of := filepath.Join(scratch, "proc.json")
+	cmd := exec.Command(bin, "-seed", fmt.Sprint(seed), "-n", fmt.Sprint(n), "-out", of)
+	var outb bytes.Buffer
+	cmd.Stdout, cmd.Stderr = &outb, &outb
+	done := make(chan error, 1)
+	cmd.Start()
+	go func() { done <- cmd.Wait() }()
+	select {
+	case err := <-done:
+		if err != nil {
+			fatal("procworld: %v\n%s", err, tail(outb.String(), 40))
+		}
+	case <-time.After(2 * time.Hour):
+		cmd.Process.Kill()
+		fatal("procworld: watchdog expired")
+	}
+	var st struct {
+		Launches   int            `json:"launches"`
+		PerKind    map[string]int `json:"per_schedule"`
+		Concurrent int            `json:"concurrent_launches"`
+		Distinct   int            `json:"distinct_schedules"`
+		Failing    []struct {
+			Plan      map[string]any `json:"plan"`
+			Violation struct {
+				Class  string `json:"class"`
+				Detail string `json:"detail"`
+				Sig    string `json:"signature"`
+			} `json:"violation"`
+			Events []string `json:"events"`
+		} `json:"failing"`
+		Infra   []string `json:"infra"`
+		Samples []any    `json:"samples"`
+	}
+	b, err := os.ReadFile(of)
+	if err != nil {
+		fatal("%v", err)
+	}
+	if err := json.Unmarshal(b, &st); err != nil {
+		fatal("%v", err)
+	}
+	if len(st.Infra) > 0 {
+		fmt.Fprintln(os.Stderr, "simcheck: infrastructure trouble (not a verdict):", strings.Join(st.Infra, "; "))
+		return 2
+	}
+	findings := loadFindings()
+	seen := map[string]bool{}
+	exit, nViol := 0, 0
+	var knownLines []string
+	os.MkdirAll(filepath.Join(verifDir, "replays"), 0755)
+	for _, f := range st.Failing {
+		if seen[f.Violation.Sig] {
+			continue
+		}
+		seen[f.Violation.Sig] = true
+		known := false
+		for _, kf := range findings {
+			if kf.Status == "open" && kf.Property == prop && kf.Signature == f.Violation.Sig {
+				known = true
+				knownLines = append(knownLines, fmt.Sprintf("KNOWN-FINDING: property=%s %s", prop, kf.What))
+			}
+		}
+		if known {
+			continue
+		}
+		// the minimised schedule is the single forced launch, alone
+		plan := f.Plan
+		plan["group"] = 0
+		plan["name"] = "h0"
+		path := filepath.Join(verifDir, "replays", fmt.Sprintf("%s-%d-%d.json", prop, seed, nViol))
+		rb, _ := json.MarshalIndent(map[string]any{"property": prop, "world": "procworld", "seed": seed, "plan": plan, "violation": f.Violation, "events": f.Events, "tree": treeID()}, "", " ")
+		os.WriteFile(path, rb, 0644)
+		ro, code := runTool(bin, "-replay", path)
+		fmt.Print(ro)
+		if code != 1 {
+			fmt.Fprintf(os.Stderr, "simcheck: the violation (%s) does not replay as a single forced launch (exit %d): infrastructure trouble, not a verdict\n", f.Violation.Detail, code)
+			return 2
+		}
+		nViol++
+		exit = 1
+		fmt.Printf("violation: class=%s %s\n", f.Violation.Class, f.Violation.Detail)
+		fmt.Printf("VIOLATION property=%s replay=%s\n", prop, path)
+	}
+	for _, l := range knownLines {
+		fmt.Println(l)
+	}
+	wall := time.Since(start).Seconds()
+	ev := map[string]any{
+		"property_id": prop, "tier": tier, "seed": seed, "level": "exploration", "wall_s": round(wall), "violations": nViol,
+		"assumptions": []string{"schedule forcing over real processes: the property-relevant order space (position of Done() relative to the launcher's steps; of Launch's return relative to the daemon's pre-Done work) is covered by four forced schedules; kernel micro-timing inside a forced order is not controlled", "the pause hook (build tag verif) only adds a wait; with the tag off it is an empty function"},
+		"coverage": map[string]any{
+			"evaluations": st.Launches, "distinct_nontrivial": st.Distinct,
+			"rule":                    "one case = one daemon.Launch with three real processes under a forced schedule: S1 natural, S2 Done() delivered while the launcher is parked before it listens, S3 daemon parked before Done() (Launch must still be waiting after 150ms), S4 launcher released first and daemon 50ms later; 0..5 marker files written before Done(); alone or 2..4 launches concurrently; distinct = distinct (schedule, markers, concurrency width); all are non-trivial (a forced or concurrent order)",
+			"samples":                 st.Samples,
+			"per_schedule":            st.PerKind,
+			"concurrent_launches":     st.Concurrent,
+			"runs_per_hour":           int(float64(st.Launches) / wall * 3600),
+			"faults_fired":            map[string]int{"launcher.parked_before_listening": st.PerKind["S2"] + st.PerKind["S4"], "daemon.slow_before_done": st.PerKind["S3"] + st.PerKind["S4"]},
+			"real_components":         []string{"daemon/daemon.go", "os/exec, os/signal, the Go runtime", "the kernel (fork/exec, SIGINT, reparenting)"},
+			"stub_components":         []string{"none: the order of the three processes is forced through gate files (one guarded pause hook in daemon.launch, harness code in the daemon's handler and in the caller)"},
+			"tree":                    treeID(),
+			"known_findings_seen":     knownLines,
+			"exhaustive":              false,
+		},
+	}
+	os.MkdirAll(filepath.Join(verifDir, "evidence"), 0755)
+	eb, _ := json.MarshalIndent(ev, "", " ")
+	os.WriteFile(filepath.Join(verifDir, "evidence", prop+".json"), eb, 0644)
+	fmt.Printf("%s %s: %d launches (%v), %d violations, %.1fs\n", prop, tier, st.Launches, st.PerKind, nViol, wall)
+	return exit
 }
